@@ -1990,7 +1990,9 @@ class CreateQueryBuilder:
         if self._foreign_key:
             raise AttributeError("'Query' object already has attribute foreign_key")
         self._foreign_key = self._prepare_columns_input(columns)
-        self._foreign_key_reference_table = reference_table
+        self._foreign_key_reference_table = (
+            reference_table if isinstance(reference_table, Table) else Table(reference_table)
+        )
         self._foreign_key_reference = self._prepare_columns_input(reference_columns)
         self._foreign_key_on_delete = on_delete
         self._foreign_key_on_update = on_update
@@ -2235,7 +2237,7 @@ class DropQueryBuilder:
 
     @builder
     def drop_index(self, index: str) -> "DropQueryBuilder":
-        self._set_target('INDEX', index)
+        self._set_target('INDEX', index.name if isinstance(index, Index) else index)
 
     @builder
     def if_exists(self) -> "DropQueryBuilder":
